@@ -40,8 +40,8 @@ def run(ctx: Context) -> None:
         deleg = [r for r in rets if "self._stream.read" in norm(r.value)]
         okd = len(deleg) == 1 and norm(deleg[0].value).replace("await", "") in ("self._stream.read(max_bytes,timeout)", "self._stream.read(max_bytes,timeout=timeout)") and "not:self._leading_data" in guard_atoms(guards_of(deleg[0]))
         rep.ob("C17.R1", fkey(tree, rd, "delegate-read"), okd, where(rd), "once the leading data is exhausted reads go to the live stream with the same max_bytes and timeout")
-        for m, want in (("write", ["self._stream.write(buffer,timeout)", "self._stream.write(buffer,timeout=timeout)"]), (t("aclose"), [f"self._stream.{t('aclose')}()"]),
-                        ("start_tls", ["self._stream.start_tls(ssl_context,server_hostname,timeout)"]), ("get_extra_info", ["self._stream.get_extra_info(info)"])):
+        # `start_tls` and `get_extra_info` of the wrapper are not clauses of this property (reads, writes and the hand-over are): how they are spelt is not judged
+        for m, want in (("write", ["self._stream.write(buffer,timeout)", "self._stream.write(buffer,timeout=timeout)"]), (t("aclose"), [f"self._stream.{t('aclose')}()"])):
             f = up.methods[m]
             calls = [norm(s.value).replace("await", "") for s in effective_body(f.node.body) if isinstance(s, (ast.Expr, ast.Return)) and s.value is not None and not isinstance(s.value, ast.Constant)]
             rep.ob("C17.R1", fkey(tree, f, "delegates"), len(calls) == 1 and calls[0] in want, where(f), f"{m} -> {calls}")
@@ -57,10 +57,14 @@ def run(ctx: Context) -> None:
             a1 = [norm(a) for a in c.args[1:]]
             rep.ob("C17.R2", fkey(tree, f11, "ctor-args"), a0 == ["self._network_stream"] and a1 == ["trailing_data"], where(f11, c), f"{up.name}({a0}, {a1})")
             rows = {}
+            # tests made after the head was received decide the wrap; one that is not about status / method (the kind of stream, a flag ...) makes the wrap conditional on
+            # something else: the bytes h11 consumed past the head are then not handed over in that case
+            head_line = min([n.lineno for n in own_nodes(f11.node) if isinstance(n, ast.Assign) and "trailing_data" in norm(n.targets[0])] or [0])
+            extra = [norm(getattr(t, "_orig", t)) for t, _ in guards_of(c) if "status" not in norm(t) and getattr(getattr(t, "_orig", t), "lineno", 0) > head_line > 0]
             for status in (100, 101, 102, 199, 200, 204, 299, 300, 404):
                 for method in (b"CONNECT", b"GET"):
                     want = status == 101 or (method == b"CONNECT" and 200 <= status <= 299)
-                    got: object = True
+                    got: object = UNKNOWN if extra else True
                     for test, pol in guards_of(c):
                         if "status" not in norm(test):
                             continue
@@ -72,7 +76,8 @@ def run(ctx: Context) -> None:
                                 got = False
                     if got is UNKNOWN or bool(got) != want:
                         rows[f"{status},{method.decode()}"] = f"{got} (want {want})"
-            rep.ob("C17.R2", fkey(tree, f11, "wrap-condition"), not rows, where(f11, c), "wrapped iff status == 101 or (CONNECT and 2xx)" if not rows else f"wrap condition deviates: {rows}")
+            rep.ob("C17.R2", fkey(tree, f11, "wrap-condition"), not rows, where(f11, c), "wrapped iff status == 101 or (CONNECT and 2xx)" if not rows else
+                   (f"the wrap (and with it the hand-over of the bytes read past the head) also depends on {sorted(set(extra))}: " if extra else "") + f"wrap condition deviates: {rows}")
             asg = parent(c)
             var = norm(asg.targets[0]) if isinstance(asg, ast.Assign) else "?"
             resp = [x for x in own_nodes(f11.node) if isinstance(x, ast.Call) and norm(x.func) == "Response"]
